@@ -117,14 +117,14 @@ func genC12(seed uint64, index int, tier string) *run.Plan {
 	if big {
 		nf = g.Intn(12)
 	}
-	kinds := []string{"close", "close", "reset", "blackhole", "refuse", "dialdelay", "acceptstall", "writestall", "nopong", "stream"}
+	kinds := []string{"close", "close", "reset", "blackhole", "refuse", "dialdelay", "acceptstall", "writestall", "nopong", "stream", "hsclose"}
 	for i := 0; i < nf; i++ {
 		k := kinds[g.Intn(len(kinds))]
 		f := run.Fault{Kind: k, AtMs: g.Intn(span + 3000), Conn: g.Intn(p.P["nconn"] + 1)}
 		switch k {
 		case "close":
 			f.A = g.Intn(3) // grace
-		case "refuse", "acceptstall", "nopong":
+		case "refuse", "acceptstall", "nopong", "hsclose":
 			f.A = []int{500, 3000, 15000, 40000}[g.Intn(4)] // duration ms
 		case "dialdelay":
 			f.A = []int{200, 2500, 12000}[g.Intn(3)]
@@ -377,6 +377,20 @@ func execC12(t *testing.T, w *core.World, p *run.Plan, r *run.Result) {
 			w.AtAbs(at, "fault dial-delay", func() { h.DialDelay = time.Duration(f.A) * time.Millisecond })
 			w.AtAbs(end, "heal dial-delay", func() { h.DialDelay = 0 })
 			end += time.Duration(f.A) * time.Millisecond
+		case "hsclose":
+			// the server restarts: the connections it has are closed, and for a while every new one is closed in an
+			// orderly way right after its handshake was read
+			end = at + time.Duration(f.A)*time.Millisecond
+			w.AtAbs(at, "fault close-on-handshake", func() {
+				srv.Beh.CloseOnHandshake = true
+				for _, c := range w.Net.Ordered() {
+					if c.Alive() {
+						srv.DropConn(c)
+						c.ServerClose(0)
+					}
+				}
+			})
+			w.AtAbs(end, "heal close-on-handshake", func() { srv.Beh.CloseOnHandshake = false })
 		case "acceptstall":
 			end = at + time.Duration(f.A)*time.Millisecond
 			w.AtAbs(at, "fault accept-then-stall", func() { h.AcceptStall = true })
